@@ -155,6 +155,12 @@ func (watcher *RequestWatcher) notifyExpiredRequests() {
 		}
 	}
 	watcher.expireMapMutex.RUnlock()
+	if verifhook.Enabled {
+		// the simulation harness decides the (otherwise map-iteration) order
+		if order := verifhook.Order("queue.expired", expiredRequestIDs); order != nil {
+			expiredRequestIDs = order
+		}
+	}
 
 	for _, requestID := range expiredRequestIDs {
 		req, found := watcher.GetRequest(requestID)
